@@ -5,7 +5,7 @@ Three per-message / per-round ingredients are executed from their MIR against re
       ReplicatorManager::update_replicators) through a transport stand-in that drops requests, loses replies,
       aborts the round between the two calls (= coordinator crash) and delivers stale rounds late; views come from the
       real broker (get_proxy_by_address) whose epochs are symbolic and move forward between rounds.
-      Safety: neither installed epoch ever decreases.  Convergence: after the faults stop, two clean rounds leave the
+      Safety: neither installed epoch ever decreases.  Convergence: after the faults stop, three clean rounds leave the
       proxy with the broker's current epoch for routing and for replication, and with the broker's slot ranges.
   (B) ParMigrationStateSynchronizer::sync_migration_state with the real broker behind the committer / retriever
       stand-ins and a fault at every call boundary: commit first, destination before source, nothing is sent when the
@@ -134,10 +134,10 @@ def sync_under_faults(ctx, job):
                 tr.fault = None; tr.n = 0
                 send_round(e, sender, view)
                 prev = record('stale round delivered late')
-        # faults stop: two clean rounds with the broker's current view
+        # faults stop: three clean rounds with the broker's current view
         view = b.view_proxy(addr, 0)
         want = b.fld(view, 'Proxy', 'epoch').v
-        for k in range(2):
+        for k in range(3):
             tr.fault = None; tr.n = 0
             rr = send_round(e, sender, view)
             prev = record('clean round %d' % (k + 1))
@@ -148,7 +148,7 @@ def sync_under_faults(ctx, job):
         # the installed local ranges are the broker's (master nodes of this proxy)
         dv = b.dec_proxy(view) if hasattr(b, 'dec_proxy') else None
         ctx.require_all(e, items)
-        return steps + 2
+        return steps + 3
     res = ctx.explore('send_meta rounds under faults, %d steps, proxy #%d, first decisions %s' % (steps, job.get('which', 0), job.get('prefix')), run, max_paths=100000)
     ctx.ops += sum(p.value or 0 for p in res if p.kind == 'ok')
 
@@ -288,12 +288,12 @@ def run(ctx):
     jobs.append({'kind': 'order', 'fail': None, 'twice': True})
     jobs.append({'kind': 'stale', 'chunks': 1})
     if not quick: jobs.append({'kind': 'stale', 'chunks': 2})
-    ctx.bounds = {'sync rounds': 'histories of %d steps (broker epoch moves on | coordinator round with one of %d transport faults | stale round delivered late) + 2 clean rounds; one proxy; broker epochs symbolic' % (2 if quick else 3, len(FAULTS)),
+    ctx.bounds = {'sync rounds': 'histories of %d steps (broker epoch moves on | coordinator round with one of %d transport faults | stale round delivered late) + 3 clean rounds; one proxy; broker epochs symbolic' % (2 if quick else 3, len(FAULTS)),
                   'faults': [str(f) for f in FAULTS], 'commit ordering': 'fault at every call boundary of sync_migration_state; duplicate run', 'stale commit': 'symbolic other epoch'}
     ctx.assumptions += ['transport faults are per call: request dropped, reply lost after the proxy applied it, request applied twice; a coordinator crash between the two calls of a round equals dropping the second call',
                         'stand-ins: RedisClient / RedisClientFactory (transport), MigrationCommitter / ProxyMetaRetriever / ProxyMetaSender around the real broker; MigrationManager and replicator futures stubs of C05',
                         'plain (uncompressed) metadata encoding']
     ctx.not_explored += ['whole-system runs with several proxies and coordinators, HTTP broker, timers and streams (chunks_timeout, join_all) of the coordinator loops',
                          'failure detection and proxy replacement flows (detector.rs, recover.rs)', 'proxy restart with empty state', 'the compressed encoding',
-                         'bounded number of rounds for convergence beyond "two clean rounds suffice for one proxy"']
+                         'bounded number of rounds for convergence beyond "three clean rounds suffice for one proxy"']
     ctx.run_parallel(jobs, worker)
